@@ -77,6 +77,10 @@ def fill_markdown(
 
     # Only format the content part if there's frontmatter
     if frontmatter:
+        if not content.strip():
+            # Nothing follows the frontmatter (or its opening `---` is never closed):
+            # return it as is, ending in exactly the newline it already has or one added.
+            return frontmatter if frontmatter.endswith("\n") else frontmatter + "\n"
         markdown_text = content
 
     if dedent_input:
